@@ -102,6 +102,8 @@ pub fn items() -> Vec<Item> {
         it("ARRAY_AGG(v)", "ARRAY_AGG", "v", false),
         it("SUM(v) * 2", "SUM*2", "v", false),
         it("MAX(v) + 1", "MAX+1", "v", false),
+        it("COUNT(v) + 100", "COUNT+100", "v", true),
+        it("10 - COUNT(DISTINCT v)", "10-COUNT_DISTINCT", "v", true),
     ]
 }
 
@@ -189,6 +191,16 @@ fn agg_value(item: &Item, rows: &[&Row]) -> Cell {
                 }
             }
             v(RVal::Int(d.len() as i64))
+        }
+        "COUNT+100" => v(RVal::Int(vals.len() as i64 + 100)),
+        "10-COUNT_DISTINCT" => {
+            let mut d: Vec<&RVal> = Vec::new();
+            for x in &vals {
+                if !d.iter().any(|y| ref_eq(x, y)) {
+                    d.push(x);
+                }
+            }
+            v(RVal::Int(10 - d.len() as i64))
         }
         "SUM" => sum(),
         "SUM*2" => match sum() {
@@ -561,6 +573,10 @@ fn statements(thorough: bool) -> Vec<Stmt> {
             }
             for bq in 0..n {
                 if a == bq {
+                    continue;
+                }
+                // the wrapped counts (items 29, 30) are paired with a reduced partner set in the quick tier
+                if !thorough && (a >= 29 || bq >= 29) && ![0usize, 3, 7, 13].contains(&a.min(bq)) {
                     continue;
                 }
                 let s = Stmt { distinct: false, items: vec![a, bq], group_by: *g, filter: *f, having: *h };
